@@ -4,7 +4,8 @@ C04 (exists never runs / mutates), C05 (crash invariant after every FS event of 
 C06 (load after save returns the value, load is read-only), C07 (delete removes exactly the result).
 """
 from pyvc.dsl import *
-from pyvc.prims import orjson_dumps, orjson_loads, content_append, content_text, npy_bytes, npy_load, lib_bytes, lib_load
+from pyvc.prims import (orjson_dumps, orjson_loads, content_append, content_text, npy_bytes, npy_load, lib_bytes, lib_load,
+                        lib_text, seq_fold, str_strip)
 from contracts.layout import file_path, dir_path, tmp_dir, error_dir, lazy_tmp_path
 
 Val = U('Val', plain=True)
@@ -247,6 +248,87 @@ def finished_cont(self, fs, fs0):
     return fs.is_dir(p) and fs.content(p) == fs0.content(t) and not fs.exists(t) and fs.same_except(fs0, p, t)
 
 
+# ---- json lines (GeneratedData, GeneratedDataLazy; utils/io.py write_jsons / iter_json_file)
+def pb_identity(data, use_tqdm, smoothing, kwargs):
+    """A-tqdm: a progress bar iterates exactly like the iterable it wraps"""
+    return data
+
+
+def jsonl_step(content, row):
+    return content_append(content, orjson_dumps(row, 6) + '\n')       # SERIALIZE_NUMPY | NON_STR_KEYS, one row per line
+
+
+def jsonl_content(rows):
+    return seq_fold(jsonl_step, 0, rows)
+
+
+def wj_inv(done, fs, fs_loop0, filename, f):
+    """write_jsons: after k rows the file holds exactly those k lines; nothing else changed"""
+    return fs.content(filename) == jsonl_content(done) and fs.is_file(filename) and fs.same_except(fs_loop0, filename)
+
+
+def save_jsonl(self, fs, fs0):
+    p = final_jsonl(self)
+    return fs.is_file(p) and fs.content(p) == jsonl_content(self._value) and fs.complete(p) and fs.same_except(fs0, p)
+
+
+def ci_jsonl(self, fs, fs0):
+    p = final_jsonl(self)
+    return not fs.exists(p) or fs.same_at(fs0, p) or (fs.content(p) == jsonl_content(self._value) and fs.complete(p))
+
+
+def lazy_rows(self):
+    return self._value()
+
+
+def save_lazy(self, fs, fs0, old_self):
+    """GeneratedDataLazy.save: rows are written to <key>_tmp.jsonl and published by one move"""
+    p = final_jsonl(self)
+    t = lazy_tmp_path(self._base_dir, self._name)
+    return fs.is_file(p) and fs.content(p) == jsonl_content(old_self._value()) and fs.complete(p) and not fs.exists(t) \
+        and fs.same_except(fs0, p, t)
+
+
+def ci_lazy(self, fs, fs0, old_self):
+    p = final_jsonl(self)
+    return not fs.exists(p) or fs.same_at(fs0, p) or (fs.content(p) == jsonl_content(old_self._value()) and fs.complete(p))
+
+
+def load_jsonl(self, result, fs, fs0):
+    """GeneratedData.load: read-only; one decoded row per stored line"""
+    return fs.ops == 0 and self._value == result
+
+
+def pickle_content(self):
+    return content_append(0, lib_text('pickle_text', self._value))
+
+
+def save_fig(self, fs, fs0):
+    p = final_pickle(self)
+    return fs.is_file(p) and fs.content(p) == pickle_content(self) and fs.complete(p) \
+        and fs.same_except(fs0, p, self._base_dir / f'{self._name}.png', self._base_dir / f'{self._name}.svg')
+
+
+def ci_fig(self, fs, fs0):
+    p = final_pickle(self)
+    return not fs.exists(p) or fs.same_at(fs0, p) or (fs.content(p) == pickle_content(self) and fs.complete(p))
+
+
+def lnp_step(self, item, trace):
+    """ListOfNumpyData.save: the i-th array is written to <dir>/<i>.npy"""
+    i, v = item
+    return trace.count('np.save') == 1 and trace.arg('np.save', 0) == str(final_dir(self) / f'{i}.npy') and trace.arg('np.save', 1) == v
+
+
+def lnp_inv(done):
+    return True
+
+
+def gen_obj(cls):
+    return Obj(f'taskchain.data:{cls}', _base_dir=S(PathK, 'base_dir'), _name=S(Str, 'name'), _persisting=Const(True),
+               _value=SymList(Val, 'rows'))
+
+
 def dir_obj(cls, persisting=True):
     return Obj(f'taskchain.data:{cls}', _base_dir=S(PathK, 'base_dir'), _name=S(Str, 'name'), _persisting=Const(persisting),
                _value=Const(None), _dir=S(Opt(PathK), 'dir'))
@@ -284,6 +366,27 @@ CONTRACTS += [
              inputs={'self': dir_obj('DirData')}, requires=['tmp_complete'], ensures={'published': 'save_dir'},
              crash_invariant={'visible_only_complete': 'ci_dir'},
              clause_props={'published': ['C06', 'C05'], 'visible_only_complete': ['C05']}, l0=['A-fs'], searchable=False),
+    Contract(id='D.GeneratedData.save', target='taskchain.data:GeneratedData.save', props={'C05': 'decisive', 'C06': 'decisive'},
+             inputs={'self': gen_obj('GeneratedData')},
+             callees={'taskchain.utils.iter:progress_bar': ByContract(spec='pb_identity')},
+             ensures={'stored': 'save_jsonl'}, crash_invariant={'visible_only_complete': 'ci_jsonl'},
+             loops={('taskchain.utils.io:write_jsons', 0): Loop('wj_inv', vars={'j': Val}, fs=True)},
+             clause_props={'stored': ['C06', 'C05'], 'visible_only_complete': ['C05']}, l0=['A-fs', 'A-json', 'A-tqdm'], searchable=False),
+    Contract(id='D.GeneratedDataLazy.save', target='taskchain.data:GeneratedDataLazy.save', props={'C05': 'decisive', 'C06': 'decisive'},
+             inputs={'self': Obj('taskchain.data:GeneratedDataLazy', _base_dir=S(PathK, 'base_dir'), _name=S(Str, 'name'),
+                                 _persisting=Const(True), _value=Fn('rows_fn', [], Seq(Val), may_raise=False))},
+             callees={'taskchain.utils.iter:progress_bar': ByContract(spec='pb_identity')},
+             ensures={'stored': 'save_lazy'}, crash_invariant={'visible_only_complete': 'ci_lazy'},
+             loops={('taskchain.utils.io:write_jsons', 0): Loop('wj_inv', vars={'j': Val}, fs=True)},
+             clause_props={'stored': ['C06', 'C05'], 'visible_only_complete': ['C05']}, l0=['A-fs', 'A-json', 'A-tqdm'], searchable=False),
+    Contract(id='D.FigureData.save', target='taskchain.data:FigureData.save', props={'C05': 'decisive', 'C06': 'decisive'},
+             inputs={'self': data_obj('FigureData')}, ensures={'stored': 'save_fig'}, crash_invariant={'visible_only_complete': 'ci_fig'},
+             clause_props={'stored': ['C06', 'C05'], 'visible_only_complete': ['C05']}, l0=['A-fs', 'A-pickle'], searchable=False),
+    Contract(id='D.ListOfNumpyData.save', target='taskchain.data:ListOfNumpyData.save', props={'C06': 'decisive'},
+             inputs={'self': Obj('taskchain.data:ListOfNumpyData', _base_dir=S(PathK, 'base_dir'), _name=S(Str, 'name'),
+                                 _persisting=Const(True), _value=SymList(Val, 'arrays'))},
+             loops={0: Loop('lnp_inv', vars={'i': Int, 'v': Val}, fs=True, step={'ith_file': 'lnp_step'})},
+             crash_invariant={}, l0=['A-fs', 'A-np'], searchable=False),
     # ---- load: read-only
     Contract(id='D.JSONData.load', target='taskchain.data:JSONData.load', props={'C06': 'decisive'},
              inputs={'self': data_obj('JSONData', value=False), 'data_type': Const(None)}, ensures={'read_only': 'load_json'},
